@@ -11,6 +11,9 @@ M = [
   "result.erase(extractDominated(rbegin, rend, unwrap), std::end(result));", "(void)rbegin; (void)rend;"),
  ('PS3 PERSEUS always projects the horizon-0 list (entries of later horizons link into the wrong level)', 'include/AIToolbox/POMDP/Algorithms/PERSEUS.hpp',
   "const auto projs = projecter(v[timestep-1]);", "const auto projs = projecter(v[0]);"),
+ ('PS4 (seeded change C04-2) PERSEUS keeps the previous horizon's best VEntry when the backup does not improve the belief (stale links; needs a sparse support and horizon >= 4)', 'include/AIToolbox/POMDP/Algorithms/PERSEUS.hpp',
+  "            result.emplace_back(crossSumBestAtBelief(b, projs));",
+  "            { double newValue, oldV2; const auto ob = findBestAtPoint(b, obegin, oend, &oldV2, unwrap); auto entry = crossSumBestAtBelief(b, projs, &newValue); result.emplace_back(newValue >= oldV2 ? std::move(entry) : *ob); }"),
  ('PB2 PBVI selects the best-at-belief entries walking the belief list backwards', 'include/AIToolbox/POMDP/Algorithms/PBVI.hpp',
   """            for ( const auto & belief : beliefs )
                 bound = extractBestAtPoint(belief, begin, bound, end, unwrap);""",
